@@ -95,7 +95,7 @@ KNOWN_SHAPES = {
     'sum': [['L'], ['NL'], ['E']], 'min': [['L'], ['N', 'I'], ['NL']], 'max': [['L'], ['N', 'I'], ['LS']],
     'get': [['D', 'str'], ['D', 'str', 'L'], ['ND', 'str'], ['D', 'num'], ['D', 'str', 'NL']],
     'index_of': [['L', 'num'], ['LS', 'str'], ['NL', 'L'], ['HL', 'str']],
-    'pretty': [['D'], ['L'], ['N'], ['ND'], ['NL'], ['D', 'str']],
+    'pretty': [['D'], ['L'], ['N'], ['ND'], ['NL'], ['D', 'str'], ['ND', 'num'], ['ND', 'str'], ['D', 'num'], ['L', 'num'], ['ND', 'L']],
     'len': [['L'], ['D'], ['S'], ['NL']], 'str': [['L'], ['D'], ['N'], ['NL']],
     'match': [['S', 'pat'], ['S', 'pat', 'str']], 'match_groups': [['S', 'pat']], 'match_all': [['S', 'pat'], ['S', 'pat', 'str']],
     'lower': [['S']], 'upper': [['S']], 'strip': [['S'], ['S', 'str']], 'replace': [['S', 'str', 'str'], ['S', 'str', 'str', 'num']],
